@@ -317,6 +317,31 @@ func (a *Analysis) root(v ssa.Value) (bool, string) {
 				}
 			}
 		}
+		// a field of an object that is fresh in this activation although it is
+		// reached through a parameter (a helper given the object under
+		// construction): whatever is in the field was stored by code of the
+		// reach set — every store to that field of that struct type
+		if fa, ok := addr.(*ssa.FieldAddr); ok {
+			if sh, _ := a.Root(fa.X); !sh {
+				var vals []ssa.Value
+				owner := fa.X.Type()
+				for _, fn := range a.Reach {
+					for _, b := range fn.Blocks {
+						for _, in := range b.Instrs {
+							st, ok := in.(*ssa.Store)
+							if !ok {
+								continue
+							}
+							fa2, ok := st.Addr.(*ssa.FieldAddr)
+							if ok && fa2.Field == fa.Field && types.Identical(fa2.X.Type(), owner) {
+								vals = append(vals, st.Val)
+							}
+						}
+					}
+				}
+				return a.join(vals...)
+			}
+		}
 		return true, "pointer loaded from memory whose contents are not tracked (" + x.String() + ")"
 	case *ssa.Call:
 		name := ssau.CallName(x)
